@@ -306,16 +306,16 @@ def c05_core():
             rest_after(Or3(Tag(1, Then(V(Just(0), 1), Just(1))), Tag(2, Then(V(Just(2), 2), V(Just(3), 3))), Tag(3, V(Any(), 1)), form=form)),
             aims=f"Choice<{form}>: rewind truncates the emitted-error list after each failed alternative")
     add("rep_collect", rest_after(Rep(Then(V(Just(0), 1), Just(1)), K(0), INF)), n=4,
-        aims="Repeated (iterator path): the last, failing iteration emitted before failing")
+        always_accepts=True, aims="Repeated (iterator path): the last, failing iteration emitted before failing")
     add("rep_fast", rest_after(RepUnit(Then(V(Just(0), 1), Just(1)), K(0), INF)), n=4,
-        aims="Repeated fast loop (unit parser, unbounded)")
+        always_accepts=True, aims="Repeated fast loop (unit parser, unbounded)")
     add("rep_counted", rest_after(RepUnit(Then(V(Just(0), 1), Just(1)), K(1), K(2))), n=4,
         aims="Repeated counted unit path")
     add("sep", rest_after(Sep(V(Just(0), 1), V(Just(1), 2), K(0), INF, FP(2), FP(3))), n=4, timeout=900,
-        aims="SeparatedBy: an emitting separator that is consumed and then given back leaves no emission")
+        always_accepts=True, aims="SeparatedBy: an emitting separator that is consumed and then given back leaves no emission")
     add("sep_item_partial", rest_after(Sep(Then(V(Just(0), 1), Just(1)), V(Just(2), 2), K(0), INF, FK(False), FP(3))), n=4, timeout=900,
-        aims="item emits then fails after a separator")
-    add("or_not", rest_after(OrNot(Then(V(Just(0), 1), Just(1)))), aims="OrNot: emission of the failed optional vanishes")
+        always_accepts=True, aims="item emits then fails after a separator")
+    add("or_not", rest_after(OrNot(Then(V(Just(0), 1), Just(1)))), always_accepts=True, aims="OrNot: emission of the failed optional vanishes")
     add("not", rest_after(Then(Not(Then(V(Any(), 1), Just(0))), V(Any(), 2))),
         aims="Not: nothing emitted inside negative lookahead is reported, whether the inner parser succeeds or fails")
     add("and_is_kept", rest_after(AndIs(V(Any(), 1), NoneOf1(0))),
@@ -332,10 +332,10 @@ def c05_core():
     add("recover_first_attempt", rest_after(RecVia(Then(V(Any(), 1), Just(0)), To(V(Any(), 2), 0xFB))),
         aims="recover_with: emissions of the failed first attempt vanish; the strategy's stay; then the recovered error")
     add("nested_or_in_rep", rest_after(Rep(Or(Tag(1, Then(V(Just(0), 1), Just(1))), Tag(2, V(Just(0), 2))), K(0), INF)), n=4, tier=T,
-        timeout=1200, aims="choice inside repetition")
+        timeout=1200, always_accepts=True, aims="choice inside repetition")
     add("or_n4", rest_after(Or(Tag(1, Then(V(Just(0), 1), Then(V(Just(1), 2), Just(2)))), Tag(2, Then(V(Any(), 3), OrNot(V(Just(3), 1)))))), n=4, tier=T,
         timeout=1200)
-    add("sep_n5", rest_after(Sep(V(Just(0), 1), V(Just(1), 2), K(0), INF, FP(2), FP(3))), n=5, tier=T, timeout=2400)
+    add("sep_n5", rest_after(Sep(V(Just(0), 1), V(Just(1), 2), K(0), INF, FP(2), FP(3))), n=5, tier=T, timeout=2400, always_accepts=True)
     return s
 
 
